@@ -208,3 +208,18 @@ mod test {
         assert!(current_cpu_usage() > 0.0);
     }
 }
+
+/// Verification hook (only with `--cfg sentinel_verif`): inject load / CPU readings, as the
+/// `cfg(test)` setters above do for unit tests.
+#[cfg(sentinel_verif)]
+pub mod verif {
+    pub fn set_system_load(load: f64) {
+        *super::CURRENT_LOAD.lock().unwrap() = load;
+    }
+    pub fn set_cpu_usage(usage: f32) {
+        *super::CURRENT_CPU.lock().unwrap() = usage;
+    }
+    pub fn set_memory_usage(usage: u64) {
+        super::CURRENT_MEMORY.store(usage, std::sync::atomic::Ordering::SeqCst)
+    }
+}
